@@ -52,7 +52,7 @@ MODULE_CALL = ("(m1 f)", '"mod"')
 
 RETS = [  # (nu expression, JSON text the model expects as content; {n} = the call counter)
     ('"pong"', '"pong"'), ("$env.n", "{n}"), ('{a: 1, b: [1 2]}', '{"a":1,"b":[1,2]}'), ("[1 2 3]", "[1,2,3]"),
-    ("true", "true"), ("3.5", "3.5"), ('$"r($env.n)"', '"r{n}"'), (None, None), (None, None)] + SCOPE_PROBES + [MODULE_CALL]
+    ("true", "true"), ("3.5", "3.5"), ('$"r($env.n)"', '"r{n}"'), (None, None), (None, None)] + SCOPE_PROBES + [MODULE_CALL, ("$frame", '"{frame}"')]
 
 METAS = [  # (nu record, model pairs key -> JSON text)
     (None, None), (None, None), ('{k: "v"}', [["k", '"v"']]), ('{n: 1, s: "x y"}', [["n", "1"], ["s", '"x y"']]),
@@ -361,8 +361,11 @@ class Gen:
             elif want_gen and x < 0.80 and len(spawned) < 4:
                 name, c = r.choice(gnames), self.ctx()
                 sp = self.generator_spec()
+                dup = any(n == name and cc == c for n, cc, _ in spawned)
                 self.steps.append({"k": "spawn", "name": name, "ctx": c, "spec": sp})
-                self.steps.append({"k": "settle", "ms": 150})
+                # after a spawn for a name that is running already, wait through the next restart (a second after a stop):
+                # the task that restarts must still be the accepted one
+                self.steps.append({"k": "sleep", "ms": 1400} if dup else {"k": "settle", "ms": 150})
                 spawned.append((name, c, sp))
             elif want_gen and x < 0.90 and spawned:
                 name, c, sp = r.choice(spawned)
@@ -593,6 +596,8 @@ def run_impl(sc, keep_dir=False, settle_ms=250):
                 obs = w.call(op)
             elif k == "unregister":
                 obs = w.call(frame_op("append", st["name"] + ".unregister", ctx_hex(st["ctx"])))
+            elif k == "sleep":
+                time.sleep(st.get("ms", 100) / 1000.0)
             elif k == "settle":
                 if serving:
                     obs = w.call({"op": "settle", "ms": st.get("ms", settle_ms), "max_ms": 8000})
@@ -682,6 +687,22 @@ def sframe(f):
             "ttl": f.get("ttl"), "content": f.get("content")}
 
 
+FRAMES_BY_ID = {}      # int id -> tap frame of the epoch under analysis (for `$frame` return values)
+
+
+def frame_record(f):
+    """what nushell sees as `$frame` (frame_to_value), as JSON"""
+    rec = {"id": hex_to_b36(f["id"]), "topic": unhx(f["topic"]), "context_id": hex_to_b36(f["ctx"])}
+    if f.get("hash"):
+        rec["hash"] = f["hash"]
+    if f.get("meta"):
+        try:
+            rec["meta"] = json.loads(f["meta"])
+        except Exception:
+            rec["meta"] = f["meta"]
+    return rec
+
+
 def canon_out(f, known_ids):
     """comparable form of an output frame (model or implementation side, both as model frames)"""
     meta = {}
@@ -692,6 +713,17 @@ def canon_out(f, known_ids):
             v = "<error>"
         meta[k] = v
     content = f.get("content")
+    if content == '"{frame}"':                         # model side: the closure returned the frame it was handed
+        fid = dict((k, v) for k, v in (f.get("meta") or [])).get("frame_id", "")
+        trig = FRAMES_BY_ID.get(int(fid[3:])) if fid.startswith("id:") and fid[3:].isdigit() else None
+        content = json.dumps(frame_record(trig), sort_keys=True) if trig else "<frame:marker>"
+    elif isinstance(content, str) and content.startswith("{") and '"context_id"' in content:
+        try:
+            rec = json.loads(content)
+            if isinstance(rec, dict) and {"id", "topic", "context_id"} <= set(rec):
+                content = "<frame:marker>" if rec["topic"] in ("xs.threshold", "xs.pulse") else json.dumps(rec, sort_keys=True)
+        except Exception:
+            pass
     if isinstance(content, str):
         own = hex_to_b36(f["ctx"])
         if content == '"{scope:cat}"':                 # model side: `.cat` shows the script's own context only
@@ -799,6 +831,8 @@ def analyse(sc, res, drv):
             fnd.append({"kind": "tap", "props": [], "why": "tap history differs from the stored stream", "epoch": e})
         S_all = hist + live
         known_ids = {int(f["id"], 16) for f in S_all}
+        FRAMES_BY_ID.clear()
+        FRAMES_BY_ID.update({int(f["id"], 16): f for f in S_all})
         # --- C10: whatever wrote it (client, handler, command, generator), a frame's hash is the sha256 of its content
         # and the content is there when a follower is handed the frame
         for f in live:
